@@ -34,6 +34,18 @@ def _sync(title, oracle, ref):
 
 
 CHECKS.update({
+    "C03": dict(
+        category="exploration",
+        technique="runtime monitoring: pure-assembly register probe around every kind of switching call + stack pattern arrays + rsp alignment assertions at thread entry and in every switch callback, -O0 and -O2 builds, delay injection",
+        text=("Groups of probe threads (child-first and parent-first entry) run a common random sequence of 19 switcher kinds covering every "
+              "swap/set-context site; each switching call is issued from an assembly routine that loads rbx,rbp,r12-r15 with seed-derived patterns and "
+              "compares them on return; every thread keeps a 1-48 KiB pattern array on its stack; per switcher the evidence counts probes that came "
+              "back on another worker. Alignment: assembly entry stubs test rsp, MYTH_VERIF_ALIGN checks every MYTH_CTX_CALLBACK and myth_entry_point. "
+              "Exploration is the right level: the property is about what the compiler and the asm keep across a switch for every pair of "
+              "threads and migration; it is sampled on -O0 and -O2, not proved (red-zone skip: see level_note)."),
+        design_ref="DESIGN.md section 5 C03, section 8.1",
+        note=COMMON_NOTE + " The 128-byte red-zone skip and MXCSR/x87 state are outside what this check can decide.",
+    ),
     "C02": dict(
         category="exploration",
         technique="runtime monitoring: ticket conservation + CAS-checked exactly-once hand-over on the real queue code with tiny capacities (unit, real OS threads), op-by-op reference deque, online fence-order trace rule, whole-library exactly-once with custom steal function; delay injection between every pair of shared accesses",
